@@ -17,7 +17,8 @@ CFGS = {1: dict(arch_version=6), 2: dict(arch_version=7), 3: dict(arch_version=7
 PROGS = {1: [1, 240, 160, 225, 0, 0, 160, 225, 0, 0, 160, 225],
          2: [0, 32, 147, 229, 4, 48, 131, 226, 0, 32, 147, 229],
          3: [0, 0, 0, 239, 0, 0, 160, 225, 0, 0, 160, 225],
-         4: [178, 32, 211, 225, 1, 16, 129, 226, 4, 240, 31, 229]}
+         4: [178, 32, 211, 225, 1, 16, 129, 226, 4, 240, 31, 229],
+         5: [3, 32, 131, 229, 0, 0, 160, 225, 0, 0, 160, 225]}      # runs with SCTLR.M = 1 (see MC_Multi.tla)
 
 
 def init_state(base, c, p):
@@ -36,6 +37,14 @@ def init_state(base, c, p):
     st['sys']['SCTLR'] = limbs((1 << 22) if CFGS[c]['arch_version'] >= 7 else 0)
     st['sys']['VBAR'] = limbs(160)
     st['mem']['base'][0] = [(j * 13) % 256 for j in range(1, 257)]
+    if p == 5:
+        st['sys']['SCTLR'] = limbs(C.unlimbs(st['sys']['SCTLR']) | 1 | (1 << 28))
+        st['sys']['MPUIR'] = limbs(256)
+        st['sys']['DACR'] = limbs(1)
+        st['sys']['PRRR'] = limbs(0xAAAA)
+        st['sys']['DRSR0'] = limbs(63)
+        st['sys']['DRACR0'] = limbs(0x608)
+        st['mem']['base'][0][0:4] = [2, 12, 0, 0]
     st['mem']['base'][0][16:28] = PROGS[p]
     return st
 
